@@ -112,3 +112,40 @@ Fixpoint frames_within (fs : list (list N)) (n : nat) : list (list N) :=
   | [] => []
   | f :: t => if Nat.leb (length f) n then f :: frames_within t (Nat.sub n (length f)) else []
   end.
+
+(* ---------------- connection.reader: the dispatch loop over the messages of a read ----------------
+   `for _, msg := range msgs { if handler, ok := c.handles[msg.Command]; ok { ... } else
+   { OnNotSupportedEvent(msg); continue } ... c.msgChan <- msg }`: every message of the read is
+   looked at, in order; a message without a registered handler is reported and skipped (continue -
+   it does not end the loop); 0x8003 goes to the re-request channel; the rest is executed and queued
+   for the writer.  A read whose parse returns an error ends the reader: none of ITS messages is
+   dispatched.  (Sub-package bookkeeping between unpack and this loop is Model/Subpkg.v, C05; the
+   join on the first supported message is Model/Registry.v, C11.) *)
+Inductive revent :=
+| RExec (raw : list N) (m : msg)        (* onReadExecutionEvent + msgChan *)
+| RUnsupported (raw : list N) (m : msg) (* OnNotSupportedEvent *)
+| RReissue (raw : list N) (m : msg).    (* reissuePackChan *)
+
+(* createDefaultHandle: the message ids with a registered handler, in source order
+   (Gen/TablesOk_stream.v: equal to what the translator reads from the source now) *)
+Definition registered_ids : list N :=
+  [1; 256; 258; 2; 512; 1796; 260; 2053; 2048; 2049; 32771; 33027; 33028; 34817; 36867; 4099; 4101;
+   37121; 37122; 37381; 4613; 37382; 4614; 37383; 37384; 4624; 4625; 4626].
+
+Definition dispatch1 (reg : list N) (x : list N * msg) : revent :=
+  let '(raw, m) := x in
+  if existsb (N.eqb (m_id m)) reg
+  then if m_id m =? 32771 then RReissue raw m else RExec raw m
+  else RUnsupported raw m.
+
+Fixpoint reader_run (reg : list N) (h : list N) (chunks : list (list N)) (acc : list revent)
+  : list revent * option N :=
+  match chunks with
+  | [] => (acc, None)
+  | c :: cs =>
+    let o := unpack h c in
+    match u_err o with
+    | Some e => (acc, Some e)
+    | None => reader_run reg (u_hist o) cs (acc ++ map (dispatch1 reg) (u_msgs o))
+    end
+  end.
